@@ -791,6 +791,78 @@ theorem Sim.budget_eq {m : Mdl} {H : Nat} {t t' : Tree} {p : Path} {s depth : Na
     show t2.budget = t.budget
     rw [ih]; exact e5
 
+/-! ### Nodes that do not exist carry no data (so that node creation really yields `N = 0`, no action nodes) -/
+
+def ZInv (t : Tree) : Prop :=
+  ∀ q, t.ex q = false → t.nN q = 0 ∧ t.nA q = 0 ∧ ∀ a, t.aN q a = 0 ∧ t.aV q a = 0 ∧ t.rets q a = []
+
+theorem ZInv.descend {m : Mdl} {H : Nat} {t t1 : Tree} {p : Path} {depth : Nat} {st : Step} {mode : Mode}
+    (h : ZInv t) (hd : descend m H t p depth st = some (t1, mode)) : ZInv t1 := by
+  obtain ⟨e1, e2, e3, e4, _, hA, hshape, _, _⟩ := descend_spec hd
+  intro q hq
+  have key : t.ex q = false ∧ t1.nA q = t.nA q := by
+    cases hshape with
+    | created hc e _ _ hnA _ =>
+      rw [e] at hq
+      by_cases hqc : q = p ++ [(st.a, m.key st)]
+      · simp [upd, hqc] at hq
+      · simp only [upd, hqc, if_false] at hq; exact ⟨hq, hnA q⟩
+    | pushed hc e _ _ =>
+      rw [e] at hq
+      refine ⟨hq, ?_⟩
+      rcases hA q with h1 | ⟨h1, _⟩
+      · exact h1
+      · rw [h1, hc] at hq; simp at hq
+    | untouched e _ _ => rw [e] at hq ⊢; exact ⟨hq, rfl⟩
+  obtain ⟨z1, z2, z3⟩ := h q key.1
+  refine ⟨by rw [e1]; exact z1, by rw [key.2]; exact z2, fun a => ?_⟩
+  rw [e2, e3, e4]; exact z3 a
+
+theorem ZInv.update {t : Tree} (h : ZInv t) (p : Path) (a : Nat) (rew : Rat) (hex : t.ex p = true) : ZInv (t.update p a rew) := by
+  intro q hq
+  have hq' : t.ex q = false := hq
+  have hne : q ≠ p := by intro e; rw [e, hex] at hq'; simp at hq'
+  obtain ⟨z1, z2, z3⟩ := h q hq'
+  refine ⟨z1, z2, fun b => ?_⟩
+  show upd t.aN p _ q b = 0 ∧ upd t.aV p _ q b = 0 ∧ upd t.rets p _ q b = []
+  simp only [upd, hne, if_false]; exact z3 b
+
+theorem ZInv.incN {t : Tree} (h : ZInv t) (p : Path) (hex : t.ex p = true) : ZInv (t.incN p) := by
+  intro q hq
+  have hq' : t.ex q = false := hq
+  have hne : q ≠ p := by intro e; rw [e, hex] at hq'; simp at hq'
+  obtain ⟨z1, z2, z3⟩ := h q hq'
+  refine ⟨?_, z2, z3⟩
+  show upd t.nN p _ q = 0
+  simp only [upd, hne, if_false]; exact z1
+
+theorem Sim.zInv {m : Mdl} {H : Nat} {t t' : Tree} {p : Path} {s depth : Nat} {used : List Step} {r : Rat}
+    (h : Sim m H t p s depth used t' r) : ZInv t → t.ex p = true → ZInv t' := by
+  have exd : ∀ {t t1 : Tree} {p : Path} {depth : Nat} {st : Step} {mode : Mode},
+      descend m H (t.incN p) p depth st = some (t1, mode) → t.ex p = true → t1.ex p = true := by
+    intro t t1 p depth st mode hd hex
+    obtain ⟨_, _, _, _, _, _, hshape, _, _⟩ := descend_spec hd
+    cases hshape with
+    | created _ e _ _ _ _ =>
+      rw [e]; by_cases hqc : p = p ++ [(st.a, m.key st)]
+      · simp [upd, ← hqc]
+      · simp only [upd, hqc, if_false]; exact hex
+    | pushed _ e _ _ => rw [e]; exact hex
+    | untouched e _ _ => rw [e]; exact hex
+  induction h with
+  | stop t p s depth st t1 _ _ _ hd =>
+    intro hz hex
+    exact ((hz.incN p hex).descend hd).update p _ _ (exd hd hex)
+  | roll t p s depth st t1 n used fr _ _ _ hd _ =>
+    intro hz hex
+    exact ((hz.incN p hex).descend hd).update p _ _ (exd hd hex)
+  | deeper t p s depth st t1 t2 used fr _ _ _ hd hS ih =>
+    intro hz hex
+    obtain ⟨_, _, _, _, _, _, _, hm, _⟩ := descend_spec hd
+    have h1 := (hz.incN p hex).descend hd
+    have h2 := ih h1 (hm rfl).2.1
+    exact h2.update p _ _ (hS.ex_mono p (exd hd hex))
+
 /-! ### Whole calls and histories of calls -/
 
 /-- `Sims m H n t useds t'`: `n` simulations from the root, the i-th making exactly the calls `useds[i]` -/
@@ -831,6 +903,7 @@ structure Inv (m : Mdl) (rmin rmax : Rat) (t : Tree) : Prop where
   /-- the range clause is the only one that needs the rewards bounded and the discount non-negative -/
   rng : Bnd m rmin rmax → RngInv m rmin rmax t
   str : StrInv m t
+  zero : ZInv t
   root : t.ex [] = true
 
 theorem Sims.inv {m : Mdl} {rmin rmax : Rat} {H n : Nat} {t t' : Tree} {useds : List (List Step)}
@@ -844,12 +917,13 @@ theorem Sims.inv {m : Mdl} {rmin rmax : Rat} {H n : Nat} {t t' : Tree} {useds : 
     have hb2 := hS.budget_eq
     have h2 : Bnd m rmin rmax → RngInv m rmin rmax t1 := fun hb => (hS.rngInv hb hH (by simpa using hbud) (hI.rng hb)).1
     have h3 := hS.strInv hI.str hI.root hs
+    have h4 := hS.zInv hI.zero hI.root
     have hlen := hS.length_le hH
     have hroot : t1.ex [] = true := by
       -- nodes are never removed by a simulation: the root survives because particles were pushed below it
       -- (direct: `ex` only ever gains entries)
       exact Sim.ex_mono hS [] hI.root
-    obtain ⟨i1, i2, i3, i4⟩ := ih hH (by rw [hb2]; exact hbud) ⟨h1, h2, h3, hroot⟩
+    obtain ⟨i1, i2, i3, i4⟩ := ih hH (by rw [hb2]; exact hbud) ⟨h1, h2, h3, h4, hroot⟩
     refine ⟨i1, by rw [i2, hb2], by simp [i3], ?_⟩
     intro u hu
     simp only [List.mem_cons] at hu
@@ -861,7 +935,7 @@ theorem Sims.inv {m : Mdl} {rmin rmax : Rat} {H n : Nat} {t t' : Tree} {useds : 
 theorem mean_nil : mean [] = 0 := by simp [mean, sumQ]
 
 theorem Inv.fresh (m : Mdl) (rmin rmax : Rat) (parts : List Nat) (nA b : Nat) : Inv m rmin rmax (Tree.fresh parts nA b) := by
-  refine ⟨⟨fun q => ?_, fun q a => rfl, fun q a => ?_, fun q a _ => rfl⟩, fun _ q a x hx => ?_, ⟨fun q hq => ?_, fun q k hq => ?_, fun q k x hx => ?_⟩, rfl⟩
+  refine ⟨⟨fun q => ?_, fun q a => rfl, fun q a => ?_, fun q a _ => rfl⟩, fun _ q a x hx => ?_, ⟨fun q hq => ?_, fun q k hq => ?_, fun q k x hx => ?_⟩, fun q hq => ?_, rfl⟩
   · show 0 = sumTo (fun _ => 0) _ + 0
     rw [sumTo_zero _ (fun _ => rfl)]
   · show (0 : Rat) = mean []
@@ -871,6 +945,8 @@ theorem Inv.fresh (m : Mdl) (rmin rmax : Rat) (parts : List Nat) (nA b : Nat) : 
     simp [hq]
   · simp [Tree.fresh] at hq
   · simp [Tree.fresh] at hx
+  · simp only [Tree.fresh, beq_eq_false_iff_ne, ne_eq] at hq
+    simp [Tree.fresh, hq]
 
 theorem StatInv.of_nA {pend : Path → Nat} {t t1 : Tree} (h : StatInv pend t) (e1 : t1.nN = t.nN) (e2 : t1.aN = t.aN)
     (e3 : t1.aV = t.aV) (e4 : t1.rets = t.rets) (hA : ∀ q, t1.nA q = t.nA q ∨ t.nA q = 0) : StatInv pend t1 := by
@@ -891,16 +967,25 @@ theorem StatInv.of_nA {pend : Path → Nat} {t t1 : Tree} (h : StatInv pend t) (
     · exact h.out q a (by omega)
 
 theorem Inv.alloc {m : Mdl} {rmin rmax : Rat} {t t1 : Tree} {p : Path} {n : Nat} (h : Inv m rmin rmax t)
-    (ha : t.alloc p n = some t1) : Inv m rmin rmax t1 ∧ t1.budget = t.budget := by
+    (hex : t.ex p = true) (ha : t.alloc p n = some t1) : Inv m rmin rmax t1 ∧ t1.budget = t.budget := by
   obtain ⟨a1, a2, a3, a4, a5, a6, a7, _, _, a10⟩ := alloc_spec ha
-  refine ⟨⟨h.stat.of_nA a1 a2 a3 a4 (fun q => ?_), fun hb => (h.rng hb).of_eq a4 a5, h.str.of_eq a6 a7, by rw [a6]; exact h.root⟩, a5⟩
-  rcases a10 q with hq | ⟨_, hq⟩
-  · left; exact hq
-  · right; exact hq
+  refine ⟨⟨h.stat.of_nA a1 a2 a3 a4 (fun q => ?_), fun hb => (h.rng hb).of_eq a4 a5, h.str.of_eq a6 a7, fun q hq => ?_,
+    by rw [a6]; exact h.root⟩, a5⟩
+  · rcases a10 q with hq | ⟨_, hq⟩
+    · left; exact hq
+    · right; exact hq
+  · rw [a6] at hq
+    obtain ⟨z1, z2, z3⟩ := h.zero q hq
+    refine ⟨by rw [a1]; exact z1, ?_, fun a => by rw [a2, a3, a4]; exact z3 a⟩
+    rcases a10 q with h1 | ⟨h1, _⟩
+    · rw [h1]; exact z2
+    · exfalso
+      -- `alloc` is only ever applied to an existing node
+      rw [h1, hex] at hq; simp at hq
 
 theorem Inv.withBudget {m : Mdl} {rmin rmax : Rat} {t : Tree} (h : Inv m rmin rmax t) (b : Nat) :
     Inv m rmin rmax (t.withBudget b) ∧ b ≤ (t.withBudget b).budget := by
-  refine ⟨⟨h.stat.of_nA rfl rfl rfl rfl (fun _ => Or.inl rfl), fun hb q a x hx => ?_, h.str.of_eq rfl rfl, h.root⟩, ?_⟩
+  refine ⟨⟨h.stat.of_nA rfl rfl rfl rfl (fun _ => Or.inl rfl), fun hb q a x hx => ?_, h.str.of_eq rfl rfl, h.zero, h.root⟩, ?_⟩
   · obtain ⟨k, h1, h2, h3⟩ := h.rng hb q a x hx
     refine ⟨k, h1, ?_, h3⟩
     show k + q.length ≤ if t.budget < b then b else t.budget
@@ -913,7 +998,8 @@ theorem Inv.reroot {m : Mdl} {rmin rmax : Rat} {t : Tree} (h : Inv m rmin rmax t
     Inv m rmin rmax (t.reroot k) := by
   refine ⟨⟨fun q => h.stat.cnt (k :: q), fun q a => h.stat.len (k :: q) a, fun q a => h.stat.avg (k :: q) a,
     fun q a hqa => h.stat.out (k :: q) a hqa⟩, fun hb q a x hx => ?_, ⟨fun q hq => h.str.nex (k :: q) hq,
-    fun q k' hq => h.str.pre (k :: q) k' hq, fun q k' x hx => h.str.par (k :: q) k' x hx⟩, hex⟩
+    fun q k' hq => h.str.pre (k :: q) k' hq, fun q k' x hx => h.str.par (k :: q) k' x hx⟩,
+    fun q hq => h.zero (k :: q) hq, hex⟩
   obtain ⟨j, h1, h2, h3⟩ := h.rng hb (k :: q) a x hx
   refine ⟨j, h1, ?_, h3⟩
   show j + q.length ≤ t.budget - 1
@@ -946,7 +1032,7 @@ theorem prepare_inv {m : Mdl} {rmin rmax : Rat} {t t0 : Tree} {op : Op} {H iters
         · rename_i t1 hal
           simp at hp
           obtain ⟨rfl, rfl, rfl⟩ := hp
-          obtain ⟨i1, _⟩ := (h.reroot (a, k) hc.1).alloc hal
+          obtain ⟨i1, _⟩ := (h.reroot (a, k) hc.1).alloc (by exact hc.1) hal
           obtain ⟨i2, i3⟩ := i1.withBudget (H' + m.overrun)
           exact ⟨i2, i3, rfl, rfl⟩
       · simp at hp
@@ -1004,6 +1090,15 @@ theorem v_is_mean {m : Mdl} {t : Tree} (h : Reach m t) (q : Path) (a : Nat) :
   refine ⟨hs.len q a, hs.avg q a, fun h0 => ?_⟩
   have : t.rets q a = [] := List.eq_nil_of_length_eq_zero (by rw [← hs.len q a]; exact h0)
   rw [hs.avg q a, this, mean_nil]
+
+/-- **new_nodes_are_empty.**  After any history, a node that is not in the tree carries no count, no action node,
+    no value and no particle — so the node created by `aNode.children[key]` / `emplace` in the model is the
+    default-constructed one of the C++ code. -/
+theorem new_nodes_are_empty {m : Mdl} {t : Tree} (h : Reach m t) (q : Path) (hq : t.ex q = false) :
+    t.nN q = 0 ∧ t.nA q = 0 ∧ t.parts q = [] ∧ ∀ a, t.aN q a = 0 ∧ t.aV q a = 0 ∧ t.rets q a = [] := by
+  have hI := h.inv 0 0
+  obtain ⟨z1, z2, z3⟩ := hI.zero q hq
+  exact ⟨z1, z2, hI.str.nex q hq, z3⟩
 
 /-- the calls of one simulation are consecutive transitions: each is made on the state the previous one
     returned, so the i-th call is made on a state exactly `i` transitions below the simulation's root state -/
